@@ -420,9 +420,17 @@ def rule_keyerror(model):
                 if isinstance(x, ast.Assign) and \
                         isinstance(x.targets[0], ast.Name):
                     tv = x.targets[0].id
+            # ... or a variable that otherwise takes the looked-up value
+            # (result = value after the try)
+            tvs = {tv}
+            for x in ast.walk(a['loop']):
+                if isinstance(x, ast.Assign) and len(x.targets) == 1 and \
+                        isinstance(x.targets[0], ast.Name) and \
+                        isinstance(x.value, ast.Name) and x.value.id == tv:
+                    tvs.add(x.targets[0].id)
             falsy = [x for x in ast.walk(h) if isinstance(x, ast.Assign)
                      and isinstance(x.targets[0], ast.Name)
-                     and x.targets[0].id == tv
+                     and x.targets[0].id in tvs
                      and isinstance(x.value, ast.Constant)
                      and not x.value.value]
             if not falsy:
@@ -474,6 +482,85 @@ def _kind(e, fi, model, _depth=0):
             return 'B'
         return 'X'
     return 'X'
+
+
+class _SH(BaseState):
+    def __init__(self, env=None):
+        self.env = dict(env or {})
+
+    def key(self):
+        return tuple(sorted(self.env.items()))
+
+    def copy(self):
+        n = _SH(self.env)
+        n.trace = self.trace
+        return n
+
+
+class _ShorthandDomain(Domain):
+    """name_param called for a tag whose only unnamed attribute is a quoted
+    text ("..."), in a tag that supports expr."""
+
+    def __init__(self, model, fi):
+        self.model = model
+        self.fi = fi
+        self.returns = []
+        ps = fi.params()
+        self.expr_param = 'expr' if 'expr' in ps else None
+
+    def truth(self, e, st):
+        if isinstance(e, ast.UnaryOp) and isinstance(e.op, ast.Not):
+            v = self.truth(e.operand, st)
+            return None if v is None else not v
+        if isinstance(e, ast.Name) and e.id == self.expr_param and \
+                st.env.get(e.id) is None:
+            return True                 # the tag supports expr
+        if isinstance(e, ast.Compare) and len(e.ops) == 1:
+            l, op, rt = e.left, e.ops[0], e.comparators[0]
+            if isinstance(rt, ast.Constant) and rt.value == '"' and \
+                    isinstance(op, (ast.Eq, ast.NotEq)):
+                return isinstance(op, ast.Eq)
+            if isinstance(l, ast.Constant) and l.value == '' and \
+                    isinstance(op, (ast.In, ast.NotIn)):
+                return isinstance(op, ast.In)
+            if isinstance(l, ast.Call) and norm(l.func) == 'len' and \
+                    isinstance(op, (ast.Gt, ast.GtE)) and \
+                    isinstance(rt, ast.Constant):
+                return True
+        return None
+
+    def branch(self, test, st):
+        v = self.truth(test, st)
+        if v is None:
+            return [(True, st), (False, st)]
+        return [(v, st)]
+
+    def raises(self, node, st):
+        return []
+
+    def effects(self, stmt, st):
+        if isinstance(stmt, ast.Assign) and len(stmt.targets) == 1 and \
+                isinstance(stmt.targets[0], ast.Name):
+            v = stmt.value
+            kind = None
+            if isinstance(v, ast.Call) and any(
+                    c.endswith(':Eval')
+                    for c in self.model.callee_names(v, self.fi)):
+                kind = 'EVAL'
+            st = st.copy()
+            st.env[stmt.targets[0].id] = kind or 'OTHER'
+        return st
+
+    def on_return(self, node, st):
+        v = node.value
+        kind = 'NAME'
+        if isinstance(v, ast.Tuple) and len(v.elts) == 2:
+            second = v.elts[1]
+            if isinstance(second, ast.Name) and \
+                    st.env.get(second.id) == 'EVAL':
+                kind = 'EVAL'
+        self.returns.append((node, kind))
+        return [], st
 
 
 def rule_shapes(model):
@@ -591,33 +678,28 @@ def rule_shapes(model):
                     r.finding(ifc.where, c, 'a condition/body pair is '
                               'appended only conditionally', node=c,
                               ctx=ifc)
-    # the "..." shorthand always compiles to an expression
+    # the "..." shorthand always compiles to an expression: interpret
+    # name_param for an unnamed attribute whose text is quoted and collect
+    # what it returns
     npf = model.func('DT_Util', 'name_param')
-    for n in own_nodes(npf.node):
-        if isinstance(n, ast.If) and "'\"'" in norm(n.test):
-            evals = set()
-            for x in ast.walk(ast.Module(body=n.body, type_ignores=[])):
-                if isinstance(x, ast.Assign) and \
-                        isinstance(x.value, ast.Call) and any(
-                            c.endswith(':Eval')
-                            for c in model.callee_names(x.value, npf)) and \
-                        isinstance(x.targets[0], ast.Name):
-                    evals.add(x.targets[0].id)
-            for x in ast.walk(ast.Module(body=n.body, type_ignores=[])):
-                if isinstance(x, ast.Return) and \
-                        isinstance(x.value, ast.Tuple) and \
-                        len(x.value.elts) == 2:
-                    second = x.value.elts[1]
-                    ok = isinstance(second, ast.Name) and second.id in evals
-                    r.instance(npf.where, x, 'shorthand -> expression'
-                               if ok else 'shorthand -> NAME')
-                    if not ok:
-                        r.finding(npf.where, x, 'the quoted expression '
-                                  'shorthand can compile to a plain name '
-                                  'lookup: a callable is then called '
-                                  'instead of being passed to the '
-                                  'expression uncalled', node=x, ctx=npf)
-            break
+    dom = _ShorthandDomain(model, npf)
+    Interp(dom).run(npf.node, _SH())
+    if not dom.returns:
+        raise AnalysisError('name_param: no return reached for the "..." '
+                            'shorthand')
+    seen = set()
+    for node, kind in dom.returns:
+        if (id(node), kind) in seen:
+            continue
+        seen.add((id(node), kind))
+        r.instance(npf.where, node, 'shorthand -> expression'
+                   if kind == 'EVAL' else 'shorthand -> NAME')
+        if kind != 'EVAL':
+            r.finding(npf.where, node, 'the quoted expression '
+                      'shorthand can compile to a plain name '
+                      'lookup: a callable is then called '
+                      'instead of being passed to the '
+                      'expression uncalled', node=node, ctx=npf)
     # opcodes tested by the interpreter
     fi = model.func('_DocumentTemplate', 'render_blocks_')
     tested = set()
@@ -691,7 +773,7 @@ def _inl(rule):
     return run
 
 
-INLINED_VIEW = False
+INLINED_VIEW = True
 RULES_PLAIN = [rule_eval, rule_keyerror, rule_shapes]
 RULES = [_inl(r_) for r_ in RULES_PLAIN] if INLINED_VIEW else RULES_PLAIN
 EXPLANATION = (
